@@ -12,6 +12,13 @@ Client / AsyncClient whose overridden methods have the real signatures.  The cal
 compared in Coq with what the generated description + bind_call predict (bit 1) and judged by
 the Coq-verified postcondition post_okb (bit 2).  The translator itself is validated against
 inspect.signature, and bind_call against CPython's own argument binding.
+
+Second dynamic part (props/c17life.py, model coq/Forward/Life.v): lives of namespace objects -
+created for a concrete namespace / the default namespace / '*', registered with the real
+register_namespace, events arriving on different namespaces dispatched to them through the real
+_trigger_event -> _get_namespace_handler -> trigger_event path, helper calls made before, between,
+after and from inside the handlers.  The expectation stays "omitted namespace = the namespace the
+object was created (registered) for".
 """
 import asyncio
 import inspect
@@ -253,14 +260,19 @@ async def observe(row, m, reg_ns, reg_mode, pos_vals, kw_items):
             r = await r
     except BaseException as e:      # noqa: B902 - any failure of the helper is an observation
         return ns.namespace, {'kind': 'raise', 'exn': exn_name(e), 'text': '%s: %s' % (type(e).__name__, e)}
+    return ns.namespace, obs_from_log(obj, r)
+
+
+def obs_from_log(obj, r):
+    """Observation of one helper call that returned `r`: the one call the recording object received."""
     log = list(obj._c17_log)
     if len(log) != 1 or log[0]['bound'] is None:
         if inspect.iscoroutine(r):
             r.close()
-        return ns.namespace, {'kind': 'other', 'n': len(log)}
+        return {'kind': 'other', 'n': len(log)}
     e = log[0]
-    return ns.namespace, {'kind': 'call', 'm': e['m'], 'args': list(e['args']), 'kwargs': e['kwargs'],
-                          'bound': e['bound'], 'same': r is e['result']}
+    return {'kind': 'call', 'm': e['m'], 'args': list(e['args']), 'kwargs': e['kwargs'],
+            'bound': e['bound'], 'same': r is e['result']}
 
 
 def obs_term(o, pr):
@@ -495,7 +507,13 @@ def run(chk):
                 'route); every such case is non-trivial (the namespace rule and every given argument are '
                 'checked on the call received); distinct by (class, method, k, keyword set, variant); calls '
                 'that are invalid at the helper itself, signature comparisons and raw binding cases are '
-                'counted as trivial')
+                'counted as trivial.  Lives of namespace objects (model Forward/Life.v): per class one directed '
+                'world per helper (objects created for \'*\' and for \'/chat\' on one real server/client, the '
+                'helper called with the namespace omitted before, inside and after the handlers of events '
+                'arriving on /news, /chat, /x, /a/b through the real _trigger_event path, nested dispatch '
+                'included) + random worlds (1-3 objects, 3-8 steps, events with 0-3 inner steps); one case per '
+                'object; a life is non-trivial when a helper call follows at least one dispatched event; '
+                'distinct by (world, object)')
     chk.trusted_base = [
         'Coq 8.16.1 kernel + vm_compute',
         'harness/translator/fwd2coq.py (Python ast -> Forward.helper / Forward.method data); validated each '
@@ -505,7 +523,13 @@ def run(chk):
         'against CPython on the real signatures), the expression semantics of `or` via PyVal.truthy',
         'the table helper class -> (self.server | self.client, underlying class) in fwd2coq.TABLE',
         'harness/props/c17.py: recording subclasses (inner functions compiled from inspect.signature of '
-        'the real methods), scenario enumeration, Python->Gallina printer (vt/coqio.py)']
+        'the real methods), scenario enumeration, Python->Gallina printer (vt/coqio.py)',
+        'harness/props/c17life.py: world scripts, handler subclasses of the real namespace classes, projection '
+        'of the world log to one life per object; coq/Forward/Life.v: created_ns (Namespace(x) is for x or '
+        '\'/\') as the meaning of "the namespace the object was registered for"; fwd2coq class descriptions '
+        '(k_plain: syntactic scan of the MRO and of the package for anything that could make `namespace` '
+        'other than a plain attribute written once by __init__; dispatch path scanned for attribute stores '
+        'and calls outside a whitelist)']
     chk.assumptions = [
         'what an omitted optional argument other than namespace defaults to is not part of the claim '
         '(Namespace.call / ClientNamespace.call forward timeout=None although Server.call defaults to 60)',
@@ -570,7 +594,53 @@ def run(chk):
         chk.count(1, key, sample)
         chk.dist('%s %s' % (row['hcls'], 'invalid-call' if trivial else variant))
 
+    # lives of namespace objects: events dispatched through the real server / client, helper calls
+    # before, between, after and inside the handlers
+    from props import c17life
+    kdesc = fwd2coq.class_descriptions()
+    chk.extra['namespace_class_descriptions'] = [
+        dict((k, v) for k, v in d.items() if k in ('helper_class', 'plain', 'attach', 'register', 'key', 'dispatch'))
+        for d in kdesc]
+    if not proved:
+        diagnose_classes(chk, kdesc)
+    specs = c17life.build_worlds(chk, world)
+    worlds = asyncio.run(c17life.run_worlds(world, specs))
+    life_samples = 0
+    for wi, (spec, w) in enumerate(zip(specs, worlds)):
+        for err in w.errors:
+            chk.broken_obligation('life scenario: %s (world %d of %s)' % (err, wi, spec['class']))
+        for oi in range(len(spec['objects'])):
+            term, view = c17life.life_case(w, oi)
+            shape = c17life.life_shape(w, oi)
+            cases.append(term)
+            meta.append({'kind': 'life', 'world': w, 'spec': spec, 'wi': wi, 'oi': oi, 'view': view,
+                         'shape': shape, 'row': w.row})
+            nontrivial = shape['entered'] and shape['after_omitted']
+            sample = None
+            if nontrivial and shape['inside'] and shape['kind'] == 'catch-all' and life_samples < 2 \
+                    and shape['event_namespaces'] >= 2 and spec['kind'] == 'random':
+                life_samples += 1
+                sample = {'life': c17life.describe_life(w, oi)}
+                chk.extra.setdefault('life_samples', []).append(sample['life'])
+            chk.count(1, ('life', spec['class'], wi, oi) if nontrivial else None, sample)
+            chk.dist('life %s %s %s' % (spec['class'], shape['kind'],
+                                        'helper-after-dispatch' if nontrivial else
+                                        ('no-dispatch' if not shape['entered'] else 'dispatch-only')))
+        chk.dist('life events handled', w.handled)
+        chk.dist('life events without a responsible object', w.unhandled)
+
     # translator validation: generated signatures / async flags against the real functions
+    for row, kd in zip(world.rows, kdesc):
+        rs = real_signature(row['H'].__init__)
+        pr = Printer()
+        if rs is None:
+            chk.broken_obligation('constructor of %s: real signature outside the model' % row['hcls'])
+            continue
+        cases.append('(SigOf %s %s false false)' % (sig_term(kd['ctor_sig'], pr), sig_term(rs, pr)))
+        meta.append({'kind': 'sig', 'who': 'constructor %s.__init__' % row['hcls'],
+                     'generated': kd['ctor_sig'], 'real': rs})
+        chk.count(1, None)
+        chk.dist('signature comparison')
     by_name = dict(((d['helper_class'], d['method']), d) for d in desc)
     for row in world.rows:
         for m in row['methods']:
@@ -605,8 +675,49 @@ def run(chk):
 
     violated_helpers = set()
     corr_bad = {}
+    life_bad = sorted((i for i in codes if meta[i]['kind'] == 'life'),
+                      key=lambda i: (0 if meta[i]['spec']['kind'] == 'directed' else 1, len(meta[i]['view']), i))
+    life_corr = {}
+    for idx in life_bad:
+        mt, code = meta[idx], codes[idx]
+        bits, at = code & 1023, (code >> 10) - 1
+        w, oi, row = mt['world'], mt['oi'], mt['row']
+        if at < 0 or at >= len(mt['view']):
+            chk.broken_obligation('life of %s: histories of model and implementation differ in length' %
+                                  c17life.describe_object(w, oi))
+            continue
+        e = mt['view'][at]
+        if bits & 2:
+            replay_ = {'life': mt['spec'], 'object': oi, 'operation': at, 'code': code, 'case': cases[idx]}
+            after = any(x[0] == 'enter' for x in mt['view'][:at])
+            if e[0] == 'helper':
+                _k, st, pos, kw, o = e
+                violated_helpers.add((row['hcls'], st['m']))
+                hm = {'given': st['pos'] + st['kw'], 'values': dict((k, spec_val(v)) for k, v in st['values'].items())}
+                sig_ = classify(row, st['m'], None, hm, o, bits) + ('-after-dispatch' if after else '')
+                what = '%s; reasons: %s' % (c17life.describe_life(w, oi, upto=at),
+                                            ', '.join(n for b, n in REASONS if bits & b))
+            else:
+                sig_ = 'c17-%s-filed-under-other-namespace' % row['hcls']
+                what = c17life.describe_life(w, oi, upto=at)
+            chk.violation(sig_, what, replay_)
+        elif bits & 1:
+            life_corr.setdefault(row['hcls'], []).append((idx, at))
+    for hcls, items in sorted(life_corr.items()):
+        idx, at = items[0]
+        mt = meta[idx]
+        text_ = ('correspondence: Forward/Life.v over the generated description k_%s and the real class disagree '
+                 'on %d lives, first (operation %d): %s' % (
+                     hcls, len(items), at, c17life.describe_life(mt['world'], mt['oi'], upto=at)))
+        chk.broken_obligation(text_)
+        if not any(h == hcls for h, _m in violated_helpers):
+            chk.violation('c17-%s-life-correspondence' % hcls, text_,
+                          {'life': mt['spec'], 'object': mt['oi'], 'operation': at, 'case': cases[idx]},
+                          no_input=True)
     for idx, code in sorted(codes.items()):
         mt = meta[idx]
+        if mt['kind'] == 'life':
+            continue
         if mt['kind'] == 'sig':
             chk.broken_obligation('translator: generated signature of %s differs from inspect.signature: '
                                   'generated %r, real %r' % (mt['who'], mt['generated'], mt['real']))
@@ -692,6 +803,47 @@ def diagnose(chk, desc):
     return bad
 
 
+def diagnose_classes(chk, kdesc):
+    """After a failed proof: which class descriptions fail Life.nsclass_okb, and why."""
+    terms = ['(nsclass_okb %s, class_diag %s)' % (d['k'], d['k']) for d in kdesc]
+    rc, out = coqio.eval_print('c17_kdiag', IMPORTS, '', terms)
+    if rc != 0:
+        chk.broken_obligation('diagnosis of the class descriptions did not run: ' + out[-800:])
+        return
+    chunks = out.split('     = ')[1:]
+    for d, chunk in zip(kdesc, chunks):
+        flat = ''.join(chunk.split(':')[0].split())
+        if flat.startswith('(true'):
+            continue
+        why = []
+        if not d['plain']:
+            why.append('`namespace` is not a plain instance attribute')
+        for lbl in ('attach', 'register', 'dispatch'):
+            if any(a == 'namespace' for a, _w in d[lbl]):
+                why.append('%s writes `namespace`' % lbl)
+        if d['key'] != 'KSelfNamespace':
+            why.append('registration key is not <object>.namespace')
+        chk.broken_obligation('nsclass_okb %s = false (%s; class_diag = %s): the theorem C17_life_%s no longer '
+                              'holds of the regenerated description' % (
+                                  d['k'], '; '.join(why) or 'constructor', flat[:120], d['helper_class']))
+
+
+def replay_life(r):
+    from props import c17life
+    world = World()
+    spec = r['life']
+
+    async def go():
+        return await c17life.LifeWorld(world.row(spec['class']), spec).run()
+    w = asyncio.run(go())
+    oi = r['object']
+    term, view = c17life.life_case(w, oi)
+    print('life     :', c17life.describe_life(w, oi, upto=r.get('operation')))
+    for err in w.errors:
+        print('error    :', err)
+    return term
+
+
 def replay(chk, data):
     """Re-run the recorded call on the real class of the current tree and re-judge it in Coq."""
     r = data['replay']
@@ -703,7 +855,11 @@ def replay(chk, data):
         print(out[-2000:])
         return 1
     terms = []
-    if 'positional' in r:
+    if 'life' in r:
+        case = replay_life(r)
+        terms = ['c17_eval %s' % case,
+                 'match %s with Life k cc ops os => Some (life_explain k cc ops os) | _ => None end' % case]
+    elif 'positional' in r:
         world = World()
         row = world.row(r['class'])
         values = dict((k, spec_val(v)) for k, v in r['values'].items())
@@ -731,9 +887,13 @@ def replay(chk, data):
         print(out)
         return 1
     code = int(m.group(1))
+    if 'life' in r and code:
+        print('at       : operation %d of the life' % ((code >> 10) - 1))
+        code &= 1023
     print('verdict  : c17_eval = %d%s%s' % (
         code, ' [model and implementation disagree]' if code & 1 else '',
-        ' [PROPERTY VIOLATED: %s]' % ', '.join(n for b, n in REASONS if code & b) if code & 2 else ''))
+        ' [PROPERTY VIOLATED: %s]' % ', '.join(n for b, n in REASONS + [(512, 'filed-under-other-namespace')]
+                                               if code & b) if code & 2 else ''))
     if os.environ.get('VERIF_VERBOSE'):
         print(out)
     return 0 if code == 0 else 1
